@@ -36,9 +36,9 @@ BFT_NOTE = ("Model bounds: weights <3,1,1,1>, one faulty weight-1 validator, vie
             "BLS keys over the harness engine; unforgeability and hash collision-freedom assumed; validity labels of harness-crafted certificates trusted.")
 CHECKS["C01"] = {
     "category": "model_checking",
-    "technique": "TLA+ ChonkyBFT.tla checked by TLC (Agreement, StoreAppendOnly); TLC trace validation (TraceChonky.tla) of seeded adversarial runs of the real replicas",
+    "technique": "TLA+ ChonkyBFT.tla checked by TLC (Agreement, StoreAppendOnly); TLC trace validation (TraceChonky.tla) of seeded adversarial runs of the real replicas (Byzantine crafting, twins), of weakened-spec attack schedules and of directed schedules (MC_Guided.tla)",
     "text": "Design-level: every interleaving / Byzantine choice of the bounded model is enumerated. Code-level: every event of every recorded run of the "
-            "real StateMachines (Byzantine equivocation with real signatures, loss/dup/reorder, crashes, block sync through EngineManager) is a TLC state in "
+            "real StateMachines (Byzantine equivocation with real signatures, twins = further real replicas running with a faulty key, loss/dup/reorder, crashes, block sync through EngineManager) is a TLC state in "
             "which agreement and append-only are evaluated on the blocks actually persisted.",
     "note": BFT_NOTE, "design_ref": "§7 C01",
 }
@@ -68,7 +68,7 @@ CHECKS["C05"] = {
 CHECKS["C16"] = {
     "category": "model_checking",
     "technique": "TLA+ PrunableQueue.tla by TLC, all bounded operation sequences replayed on the real create_input_channel() (T2) + racing sender threads judged by the spec's content invariants; cache-bound monitor by TLC on validated replica traces",
-    "text": "Queue: exhaustive operation sequences with exact output comparison; after races of 4 sender threads the queue content must satisfy OnePerSenderKind / OnlyValid / KeepsMax / NothingLost. Replica bookkeeping: per-event snapshot of the four vote caches checked "
+    "text": "Queue: exhaustive operation sequences (messages of two senders, two kinds, three views, valid / forged, and validly signed variants naming another genesis or another block - the slot must be (sender, kind) only) with exact output comparison; after races of 4 sender threads the queue content must satisfy OnePerSenderKind / OnlyValid / KeepsMax / NothingLost. Replica bookkeeping: per-event snapshot of the four vote caches checked "
             "against the committee-size bound, including future-view floods by faulty validators.",
     "note": BFT_NOTE, "design_ref": "§7 C16",
 }
@@ -77,7 +77,8 @@ CHECKS["C06"] = {
     "category": "model_checking",
     "technique": "TLA+ MC_Progress.tla (good-period scheduler) checked by TLC for liveness under weak fairness; good-period continuation (T5) of every recorded prefix on the real replicas",
     "text": "Model: Progress and BoundedProgress for all good-period schedules, three leader orders, with a weakened-spec vacuity guard. Code: after every "
-            "adversarial prefix the real replicas are run synchronously (real inbound queue, timers at quiescence, block fetch) and must all store a new block.",
+            "adversarial prefix the real replicas are run synchronously (real inbound queue, timers at quiescence, block fetch) and must all store a new block - and then one more block per validator, so that the views of the silent faulty leaders are left by timeout certificates; "
+            "in the harsher ending everything the faulty validators ever sent first reaches every correct replica and one round of timer messages is lost.",
     "note": BFT_NOTE + " Good period = global quiescence before timers; bound on timer rounds is generous, not minimal.",
     "design_ref": "§7 C06",
 }
@@ -107,7 +108,7 @@ CHECKS["C19"] = {
     "technique": "TLA+ FetchQueue.tla checked by TLC (safety + NoLostWakeup liveness); TLC trace validation (TraceFetch.tla) of a seeded driver of the real gossip::fetch::Queue; GossipFetch.tla checked by TLC and every scripted peer it enumerates replayed against a real running node (T2)",
     "text": "Every interleaving of request/cancel/announce/accept/complete/fail of the bounded model; on the code every hand-out must be an enabled spec "
             "action (announced, lowest, once), the pending set must equal the spec's at every quiescent point, and no idle peer may be left unserved. End to end: a real node "
-            "fetching from a peer that announces a range and answers right / another number / a forged payload / nothing asks only for announced numbers and, once an honest peer is "
+            "fetching from a peer that announces a range and answers right / another number / a forged payload / an empty response / not at all (connection kept open: the call's timeout must free the request) asks only for announced numbers and, once an honest peer is "
             "there, ends up with every block.",
     "note": "Single-threaded runtime with quiescence between commands; real multi-threaded interleavings are not controlled. One live requester per block.",
     "design_ref": "§7 C19",
@@ -149,21 +150,21 @@ CHECKS["C13"] = {
 
 CHECKS["C12"] = {
     "category": "model_checking",
-    "technique": "TLA+ Handshake.tla (Dolev-Yao style adversary, Auth checked by TLC) and Pool.tla; their case tables / operation sequences replayed on the real handshakes over real noise sessions, on the real PoolWatch, and on a real running node dialled over loopback TCP (T2)",
+    "technique": "TLA+ Handshake.tla (Dolev-Yao style adversary, Auth checked by TLC), SessionId.tla (the session identifier binds both ends' ephemeral contributions: SidUnique, RelayRefused; replayed with real noise ends against a raw noise peer that reuses its ephemeral key) and Pool.tla; their case tables / operation sequences replayed on the real handshakes over real noise sessions, on the real PoolWatch, and on a real running node dialled over loopback TCP (T2)",
     "text": "Auth is checked on the specification for every adversary message; every message class (claimed key, session, chain, signer) is then put on a real "
             "encrypted loopback session against the real gossip and validator handshakes (incl. validator pool admission) and the verdict and attributed key "
             "compared; pool sequences are exhaustive for 5 operations plus a concurrent stress; the same sequences (connect = dial + authenticate, remove = hang up) and racing "
             "dials are replayed against a real node's gossip and validator listeners, comparing admission and the node's inbound pools with Pool.tla.",
-    "note": "Signature unforgeability and session-id uniqueness assumed (the latter is the noise transcript hash); malformed/unsigned frames are covered by C10, not here; pool thread interleavings not controlled.",
+    "note": "Signature unforgeability and collision-freedom of the transcript hash assumed; honest ends draw fresh ephemeral keys (snow does); malformed/unsigned frames are covered by C10, not here; pool thread interleavings not controlled.",
     "design_ref": "§7 C12",
 }
 
 CHECKS["C14"] = {
     "category": "model_checking",
-    "technique": "TLA+ Mux.tla (reusable-stream protocol) checked by TLC; per-stream records of two real Muxes over a fragmenting transport evaluated by TLC (TraceMux.tla) + flood scenarios (DATA flood by a real Mux, OPEN/CLOSE flood by a raw peer); MuxBuffer.tla (permits before bytes) checked by TLC, its blocked states compared byte-exactly with what the real Mux pulls from a raw flooding peer",
+    "technique": "TLA+ Mux.tla (reusable-stream protocol) checked by TLC; per-stream records of two real Muxes over a fragmenting transport evaluated by TLC (TraceMux.tla) + flood scenarios (DATA flood by a real Mux, OPEN/CLOSE flood by a raw peer); MuxBuffer.tla (permits before bytes) checked by TLC, its blocked states (one and two streams sharing the semaphores) compared byte-exactly with what the real Mux pulls from a raw flooding peer; MuxWrite.tla (write half: frame buffer, bounded hand-over, writes that give up) checked by TLC and runs with failing write_all calls under back-pressure validated by TLC (TraceMuxWrite.tla)",
     "text": "Design: isolation, local end-of-stream and matching incarnations for every interleaving of the OPEN/DATA/CLOSE protocol on one stream id. Code: "
             "concurrent transient streams with self-identifying payloads (some abandoned half-read) must pair one-to-one within a capability, complete and "
-            "intact both ways; open streams per capability <= min of the announced limits; bytes pulled from the transport under a DATA flood stay within the buffers, frames pulled under a control-frame flood within read_frame_count.",
+            "intact both ways; open streams per capability <= min of the announced limits; bytes pulled from the transport under a DATA flood stay within the buffers, frames pulled under a control-frame flood within read_frame_count; what the peer reads from a stream whose writer gave up some writes under back-pressure is every completed write and a prefix of every failed one, in order.",
     "note": "Thread schedules are perturbed, not controlled; the adversarial peer is a non-cooperating real Mux (protocol-violating frames belong to C10); limits 1..3, 3 capabilities.",
     "design_ref": "§7 C14",
 }
@@ -181,12 +182,12 @@ CHECKS["C10"] = {
 
 CHECKS["C17"] = {
     "category": "model_checking",
-    "technique": "TLA+ Scope.tla checked by TLC over every schedule of every bounded task-tree program; the spec's per-program outcome sets compared with the real scope::run! on a multi-threaded runtime (T2)",
+    "technique": "TLA+ Scope.tla checked by TLC over every schedule of every bounded task-tree program; the spec's per-program outcome sets compared with the real scope::run! and (every third run) scope::run_blocking! on a multi-threaded runtime (T2)",
     "text": "For each program the model yields the exact set of outcomes the scope may return (ok / which error / panic) under any schedule; the real scope must stay "
             "within it over many perturbed runs, must have joined every task when it returns, and may never hang when all tasks can finish (cancellation reaches waiting tasks). In a fifth of the runs the waker "
             "given to ctx.canceled() stalls the cancelling thread, so that a failure recorded only after the cancellation it caused loses the race. The caller's context rotates through the shapes the model's `outer` flag stands for "
             "(own deadline, tighter deadline under a finite parent, cascade from the parent, enclosing scope ending); waiting tasks wait on descendants of the scope's context.",
-    "note": "Program space: <= 2 (quick) / 3 (thorough) tasks, no nested scopes / blocking tasks; real thread schedules are perturbed, not controlled; no concurrency hook was needed.",
+    "note": "Program space: <= 2 (quick) / 3 (thorough) tasks, root task ok / error / panic, async and blocking flavour, no nested scopes inside the program; a driver process that dies while executing a program (dangling borrows after an early return) is re-run on that program alone and only a reproducible death is a verdict; real thread schedules are perturbed, not controlled; no concurrency hook was needed.",
     "design_ref": "§7 C17",
 }
 
